@@ -247,7 +247,9 @@ pub fn leaf_value(l: &LeafX) -> PResult<AvpValue> {
         LeafX::Oct(b) => OctetString::new(b.clone()).into(),
         LeafX::Time(z) => Time::new(
             chrono::Utc
-                .timestamp_opt(*z, 0)
+                // a sub-second part for every odd second: the wire carries whole seconds, the second of an instant is
+                // the floor of its timestamp (chrono's timestamp()), so the fraction must never change the outcome
+                .timestamp_opt(*z, if z.rem_euclid(2) == 1 { 999_999_999 } else { 0 })
                 .single()
                 .ok_or_else(|| "time not representable".to_string())?,
         )
